@@ -56,6 +56,19 @@ let jerr = function
   | Crash COther -> "{\"err\":\"Crash\",\"exc\":\"other\"}" | OutOfFuel -> "{\"err\":\"OutOfFuel\"}"
 let jres f = function Ok a -> "{\"ok\":" ^ f a ^ "}" | Err e -> jerr e
 
+let jopts o = "{\"layout\":" ^ jl ji o.o_layout ^ ",\"quirks\":" ^ jn o.o_quirks ^ ",\"mss\":" ^ ji o.o_mss ^ ",\"ts1\":" ^ ji o.o_ts1
+  ^ ",\"ws\":" ^ ji o.o_ws ^ ",\"eol\":" ^ ji o.o_eol ^ "}"
+let jpsig p = "{\"ver\":" ^ ji p.p_ver ^ ",\"olen\":" ^ ji p.p_olen ^ ",\"ttl\":" ^ ji p.p_ttl ^ ",\"win\":" ^ ji p.p_win
+  ^ ",\"layout\":" ^ jl ji p.p_layout ^ ",\"mss\":" ^ ji p.p_mss ^ ",\"ws\":" ^ ji p.p_ws ^ ",\"ts1\":" ^ ji p.p_ts1
+  ^ ",\"eol\":" ^ ji p.p_eol_pad ^ ",\"hdr\":" ^ ji p.p_hdrlen ^ ",\"pay\":" ^ jb p.p_payload ^ ",\"quirks\":" ^ jn p.p_quirks
+  ^ ",\"syn_mss\":" ^ ji p.p_syn_mss ^ "}"
+let jpacket syn_mss k =
+  let ip = k.k_ip in let t = k.k_tcp in
+  "{\"ip\":{\"version\":" ^ ji ip.i_ver ^ ",\"ttl\":" ^ ji ip.i_ttl ^ ",\"options_length\":" ^ ji ip.i_olen ^ ",\"header_length\":" ^ ji ip.i_hlen
+  ^ ",\"is_fragment\":" ^ jb ip.i_frag ^ ",\"quirks\":" ^ jn ip.i_q ^ "},\"tcp\":{\"type\":" ^ ji t.t_type ^ ",\"src_port\":" ^ ji t.t_sport
+  ^ ",\"dst_port\":" ^ ji t.t_dport ^ ",\"window\":" ^ ji t.t_win ^ ",\"seq\":" ^ ji t.t_seq ^ ",\"header_length\":" ^ ji t.t_hlen
+  ^ ",\"quirks\":" ^ jn t.t_q ^ ",\"payload\":" ^ jtext t.t_payload ^ ",\"options\":" ^ jopts t.t_opts ^ "},\"psig\":" ^ jpsig (sig_of k syn_mss) ^ "}"
+
 let dispatch cmd =
   match cmd with
   | "win_multi" -> let p = read_pkt () in jpair ji jb (win_multi p)
@@ -81,6 +94,9 @@ let dispatch cmd =
       let m = nz () in let ver = nz () in
       let opts = nlist (fun () -> let k = ni () in let v = nz () in if k = 0 then OMss v else OOther v) in
       jl (function OMss v -> "[0," ^ ji v ^ "]" | OOther v -> "[1," ^ ji v ^ "]") (imp_mtu m ver opts)
+  | "parse_options" -> let syn = nb () in let b = ntext () in jres jopts (parse_options b syn)
+  | "extract" -> let v = nz () in let syn_mss = nz () in let b = ntext () in
+      (match parse_packet v b with Unframed -> "\"unframed\"" | Framed r -> jres (jpacket syn_mss) r)
   | _ -> failwith ("unknown command " ^ cmd)
 
 let () =
